@@ -383,6 +383,16 @@ def run(ctx):
                     for gc in graph_calls(ctx, v):
                         if gc.meth in ("add_node", "add_nodes_from") and lab and v.cfg.branch_dominated(v.cfg.by_ast[id(i.test)], lab, v.cfg_id(gc.node)):
                             okk = True
+                            # ... and ALL of them: an insertion that is filtered by a test on the node (`for node in h.get_nodes() if
+                            # h.degree(node) == 0`) keeps the nodes the test lets through - a node whose only hyperedges are
+                            # singletons has a positive degree and is an endpoint of no pair
+                            filt = [c_ for a_ in list(gc.node.args) for x in ast.walk(a_) if isinstance(x, (ast.GeneratorExp, ast.ListComp, ast.SetComp)) for g_ in x.generators for c_ in g_.ifs]
+                            lp_ = v.enclosing(gc.node, (ast.For,))
+                            if lp_ is not None:
+                                lv_ = {x.id for x in ast.walk(lp_.target) if isinstance(x, ast.Name)}
+                                filt += [j.test for j in v.enclosing_all(gc.node, (ast.If,)) if j is not i and any(j is y for y in ast.walk(lp_)) and lv_ & {x.id for x in ast.walk(j.test) if isinstance(x, ast.Name)}]
+                            if filt:
+                                res.violation("F-USE", v.fi.short, norm(gc.node)[:90], "keep_isolated:all-nodes", f"with keep_isolated the projection receives only the nodes that pass `{norm(filt[0])[:50]}`: a node that passes neither this test nor becomes an endpoint of a pair (all its hyperedges are singletons) is lost", loc(v.fi, gc.node))
         res.add("F-USE", v.fi.short, "if keep_isolated: g.add_node(node)", "keep_isolated", "ok" if okk else ("violation" if seen_test else "unknown"), "" if okk else "keep_isolated does not add every node of the hypergraph to the projection", loc(v.fi, v.fi.node))
     # ---- simplicial complex
     with res.guard("simplicial complex"):
